@@ -214,7 +214,7 @@ pub fn search_serial(rng: &mut Rng, rounds: usize) -> Option<Cex> {
     use flipdot_core::SignBus;
     let kinds = [io::ErrorKind::TimedOut, io::ErrorKind::Other, io::ErrorKind::BrokenPipe, io::ErrorKind::UnexpectedEof, io::ErrorKind::InvalidData, io::ErrorKind::WouldBlock];
     let replies: Vec<Vec<u8>> = vec![
-        b":01000304078B\r\n".to_vec(),
+        Frame::from(Message::ReportState(Address(3), State::ConfigReceived)).to_bytes_with_newline(),
         Frame::from(Message::ReportState(Address(3), State::PageLoadInProgress)).to_bytes_with_newline(),
         Frame::from(Message::ReportState(Address(3), State::PageShowInProgress)).to_bytes_with_newline(),
         Frame::from(Message::AckOperation(Address(0xFFFF), Operation::FinishReset)).to_bytes_with_newline(),
